@@ -401,7 +401,7 @@ class StoreSession:
                 try:
                     im.add_edge(a, b)
                 except Exception:
-                    self.bump("probe_rejected_add_edge")      # refused: nothing of it may remain
+                    self.bump("fired_rejected_call")      # refused: nothing of it may remain
                 else:
                     self.im_ref.nbrs[a].append(b)             # accepted as a dangling entry (like graph=...)
         elif k == "self_nbr":
@@ -1103,7 +1103,7 @@ def eval_C18(doc):
                             try:
                                 m.add_edge(op["a"], op["b"])
                             except Exception:
-                                bump("probe_rejected_add_edge")
+                                bump("fired_rejected_call")
                             else:
                                 dangling.append((op["a"], op["b"]))
                     elif k == "reopen" and nodes:
